@@ -116,6 +116,17 @@ func (model *ProtModel) InitModel(aafreqs []float64) error {
 		model.pi = aafreqs
 	}
 
+	/* frequencies must sum to 1 (the published tables are rounded: they sum to 1 +- 1e-6) */
+	sum = .0
+	for i = 0; i < ns; i++ {
+		sum += model.pi[i]
+	}
+	pi := make([]float64, ns)
+	for i = 0; i < ns; i++ {
+		pi[i] = model.pi[i] / sum
+	}
+	model.pi = pi
+
 	/* multiply the nth col of Q by the nth term of pi/100 just as in PAML */
 	model.mat.Apply(func(i, j int, v float64) float64 { return v * model.pi[j] / 100.0 }, model.mat)
 
